@@ -714,6 +714,132 @@ def mutate(c, rule, rng):
     return c
 
 
+# ----------------------------------------------------------------------------- near-miss programs
+# A well-formed generated program with ONE inconsistency that the builders document as an error (and have to refuse):
+#   cond      one case of a Conditional (add_conditional / add_if+add_else / Conditional(...) / insert_conditional) sets a
+#             different output row than the others: all outputs dropped (empty vs non-empty) or one output added; the
+#             changed case is the first one finished or a later one            -> ConditionalError "Mismatched case outputs"
+#   cfg_exit  one of several blocks branching to the exit sets a different row  -> MismatchedExit
+#   declared  the outputs declared for a function differ from what set_outputs is given -> ValueError
+# If a builder call raises, the program is outside the property (counted, not a violation); if every call is accepted the
+# serialised HUGR has to be valid, and `mon` decides with the program as the concrete failing input.
+
+
+def _nm_sites(p):
+    sites = []
+
+    def region_sites(r):
+        for st in r.get("stmts", []):
+            stmt_sites(st)
+
+    def stmt_sites(st):
+        k = st.get("k")
+        if k == "cond":
+            if len(st["cases"]) >= 2:
+                sites.append(("cond", st))
+            for c in st["cases"]:
+                region_sites(c)
+        elif k in ("nested", "loop"):
+            region_sites(st["body"])
+        elif k == "cfg":
+            cfg_sites(st)
+        elif k == "localfn":
+            if st.get("declare"):
+                sites.append(("declared", ("localfn", st)))
+            region_sites(st["body"])
+
+    def cfg_sites(c):
+        exits = [b for b in c["branches"] if b[1] in ("exit", "exit_via_branch")]
+        if len(exits) >= 2:
+            sites.append(("cfg_exit", c))
+        for bl in c["blocks"]:
+            region_sites(bl["body"])
+    root = p["root"]
+    if root in ("dfg", "loop"):
+        region_sites(p["body"])
+    elif root == "func":
+        if p.get("declare"):
+            sites.append(("declared", ("func", p)))
+        region_sites(p["body"])
+    elif root == "cond":
+        if len(p["cases"]) >= 2:
+            sites.append(("cond", p))
+        for c in p["cases"]:
+            region_sites(c)
+    elif root == "cfg":
+        cfg_sites(p)
+    elif root == "module":
+        for f in p["funcs"]:
+            if not f.get("decl") and f.get("body") is not None:
+                if f.get("declare") and not (f["name"] == "main" and not f.get("params")):
+                    sites.append(("declared", ("modfn", f)))
+                region_sites(f["body"])
+    return sites
+
+
+def _nm_change_outs(region, in_tys, rng, force=None):
+    """changes the output row of a region: 'drop' (all outputs removed) or 'add' (one more, copyable, output);
+    returns the description or None"""
+    outs, tys_ = list(region["outs"]), list(region["out_tys"])
+    cands = [(w, t) for w, t in zip(outs, tys_) if not progs.is_linear(t)]
+    cands += [(w, t) for w, t in zip(region["ins"], in_tys) if not progs.is_linear(t)]
+    kinds = (["drop"] if outs else []) + (["add"] if cands else [])
+    if force in kinds:
+        kinds = [force]
+    if not kinds:
+        return None
+    kind = rng.choice(kinds)
+    if kind == "drop":
+        region["outs"], region["out_tys"] = [], []
+    else:
+        w, t = rng.choice(cands)
+        region["outs"], region["out_tys"] = outs + [w], tys_ + [t]
+    return kind
+
+
+def near_miss(prog, rng):
+    """-> (program, description) with description None when the program offers no site"""
+    p = copy.deepcopy(prog)
+    sites = _nm_sites(p)
+    if not sites:
+        return prog, None
+    kind, site = rng.choice(sites)
+    if kind == "cond":
+        cases = site["cases"]
+        style = site.get("style", "cases")
+        order = [1, 0] if style == "ifelse" else list(site.get("order", range(len(cases))))
+        pos = 0 if rng.random() < 0.5 else rng.randrange(1, len(order))
+        rows = progs.sum_rows(site["sum_ty"])
+        i = order[pos]
+        how = _nm_change_outs(cases[i], rows[i] + list(site["other_tys"]), rng)
+        if how is None:
+            return prog, None
+        return p, "cond:%s:%s" % (how, "first" if pos == 0 else "later")
+    if kind == "cfg_exit":
+        exits = [k for k, b in enumerate(site["branches"]) if b[1] in ("exit", "exit_via_branch")]
+        blocks_by_wire = {}
+        for bl in site["blocks"]:
+            for w in bl["branch_wires"]:
+                blocks_by_wire[w] = bl
+        pos = 0 if rng.random() < 0.5 else rng.randrange(1, len(exits))
+        bl = blocks_by_wire.get(site["branches"][exits[pos]][0])
+        if bl is None or not bl.get("single"):
+            return prog, None
+        how = _nm_change_outs(bl["body"], bl["in_tys"], rng)
+        if how is None:
+            return prog, None
+        return p, "cfg_exit:%s:%s" % (how, "first" if pos == 0 else "later")
+    where, f = site
+    decl = f["outs"] if where == "modfn" else f["body"]["out_tys"]
+    if decl and rng.random() < 0.5:
+        decl.pop()
+        how = "drop"
+    else:
+        decl.append("B")
+        how = "add"
+    return p, "declared:%s:%s" % (where, how)
+
+
 # ----------------------------------------------------------------------------- the property
 
 
@@ -777,6 +903,12 @@ class C01(fw.Prop):
             cases.append({"seed": rng.randrange(1 << 30), "root": ["dfg", "loop", "cond", "dfg"][i % 4],
                           "allow": ["nested", "cond", "loop", "order", "md", "insert"],
                           "size": rng.choice([4, 6, 8, 10]), "depth": rng.choice([2, 3, 3, 4])})
+        # near-miss programs: a well-formed program with one inconsistency the builders have to refuse (see near_miss);
+        # drawn last again
+        nm_roots = ["dfg", "cond", "module", "cfg", "func", "cond", "dfg", "loop"]
+        for i in range(96 if tier == "quick" else 900):
+            cases.append({"seed": rng.randrange(1 << 30), "root": nm_roots[i % len(nm_roots)],
+                          "nearmiss": rng.randrange(1 << 30), "size": rng.choice([3, 4, 6]), "depth": rng.choice([2, 3])})
         return cases
 
     def program(self, case):
@@ -791,7 +923,15 @@ class C01(fw.Prop):
             kw["max_depth"] = case["depth"]
         if case.get("allow") is not None:
             kw["allow"] = tuple(case["allow"])
-        return progs.gen_program(random.Random(case["seed"]), case.get("root"), **kw)
+        p = progs.gen_program(random.Random(case["seed"]), case.get("root"), **kw)
+        if case.get("nearmiss") is not None:
+            # a program without a site for an inconsistency is replaced by the next seeds' (deterministic in the case)
+            for t in range(8):
+                q = p if t == 0 else progs.gen_program(random.Random(case["seed"] + t), case.get("root"), **kw)
+                q, how = near_miss(q, random.Random(case["nearmiss"] + t))
+                if how is not None:
+                    return {**q, "_near_miss": how}
+        return p
 
     def observe(self, case, ctx):
         p = self.program(case)
@@ -800,16 +940,21 @@ class C01(fw.Prop):
         except ConvError:
             raise
         except Exception as e:
-            return {"error": type(e).__name__, "msg": str(e)[:200], "prog": p}
+            return {"error": type(e).__name__, "msg": str(e)[:200], "prog": p, "near_miss": p.get("_near_miss")}
         if len(d1["nodes"]) > self.MAX_NODES and "seed" in case and case.get("size") is None:
             # keep the Coq evaluation within the budget: regenerate the same seed with a smaller size
             return self.observe({**case, "size": 3, "depth": 2}, ctx)
         same = strip_doc(d1) == strip_doc(d2)
         fv, fmsg = fake_verdict(d1)
         return {"doc": strip_doc(d1), "same": same, "fake": fv, "fake_msg": fmsg, "prog": p,
+                "near_miss": p.get("_near_miss"),
                 "eff": {k: case[k] for k in ("size", "depth") if k in case}}
 
     def literal(self, case, obs, ctx):
+        if "error" in obs and obs.get("near_miss"):
+            # a near-miss program (one inconsistency the builders document as an error) and a builder call raised:
+            # outside the property ("whenever no builder call raises"); counted in the distribution
+            return "(CSkip)"
         if "error" in obs:
             # the builders raised on a program the generator believes well formed: not a validity question;
             # reported by extra() as a generator/builder problem
@@ -820,7 +965,9 @@ class C01(fw.Prop):
         if obs["fake"] is not None:
             pass
         lit = None
-        if obs["prog"]["root"] == "dfg":
+        if obs.get("near_miss"):
+            lit = gapp("CDoc", gvhugr(c), gbool(obs["same"]), gbool(obs["fake"]))
+        if lit is None and obs["prog"]["root"] == "dfg":
             try:
                 pl = conv_prog(obs["prog"], c["tab"])      # may intern further types: before the table is printed
                 lit = gapp("CProg", pl, gvhugr(c), gbool(obs["same"]), gbool(obs["fake"]))
@@ -896,7 +1043,20 @@ class C01(fw.Prop):
         d = {"roots": {}, "nodes": [], "stmt_kinds": {}, "nonlocal_edges": 0, "order_edges": 0, "fake_rejects": 0,
              "builders_raised": 0, "inside_builder_model": 0, "out_of_model": {},
              "inside_extended_model": 0, "inside_extended_model_by_root": {}, "out_of_extended_model": {}}
+        d["near_miss"] = {"applied": 0, "refused_by_builders": 0, "accepted": 0, "kinds": {}, "refused_with": {}}
         for c, o in zip(cases, observations):
+            if o.get("near_miss"):
+                nm = d["near_miss"]
+                nm["applied"] += 1
+                kind = o["near_miss"]
+                kk = nm["kinds"].setdefault(kind, [0, 0])          # [refused, accepted]
+                if "doc" not in o:
+                    nm["refused_by_builders"] += 1
+                    kk[0] += 1
+                    nm["refused_with"][o["error"]] = nm["refused_with"].get(o["error"], 0) + 1
+                    continue
+                nm["accepted"] += 1
+                kk[1] += 1
             if "doc" not in o:
                 d["builders_raised"] += 1
                 continue
@@ -1142,6 +1302,17 @@ NAMED["tracked_wire_before_index"] = {
          "via": "add", "id": 1},
         {"k": "tadd", "op": ["custom", "h", ["Q"], ["Q"]], "args": [["i", 0]], "outs": [None], "via": "add", "id": 2},
         {"k": "tout", "mode": "indexed", "args": [["w", 3], ["i", 0]], "id": 3}]}
+# seeded change C01-f (missed before the near-miss stream): Conditional._update_outputs with a truthiness test: the first
+# finished case records an EMPTY output row, a later case sets a non-empty one.  hugr-py has to refuse the second case
+# (ConditionalError: outside the property); if every call is accepted the document has to be valid
+NAMED["cond_empty_then_nonempty"] = {
+    "root": "dfg", "ins": ["B", "B"], "_near_miss": "cond:add:later",
+    "body": {"ins": [1, 2], "stmts": [
+        {"k": "cond", "cond": 1, "args": [2], "style": "cases", "order": [0, 1], "sum_ty": "B", "other_tys": ["B"], "id": 1,
+         "outs": [], "cases": [
+             {"ins": [3], "stmts": [], "outs": [], "out_tys": [], "defs": []},
+             {"ins": [4], "stmts": [], "outs": [4], "out_tys": ["B"], "defs": []}]}],
+        "outs": [], "out_tys": [], "defs": []}}
 NEG_NAMED = ["localfn", "divmod_partial_ext"]
 
 PROP = C01()
